@@ -715,6 +715,12 @@ func (p *CaseForm) typecheckForm(gammaNameTypesCtx NamesTypesCtx, providerShadow
 				return TypeErrorf("branch labelled '%s' does not match the branches of type '%s'", curBranchForm.StringShort(), providerBranchCaseType.String())
 			}
 
+			// curBranchForm.payload_c (the provider's new name) cannot exist in gammaNameTypesCtx
+			if nameTypeExists(gammaNameTypesCtx, curBranchForm.payload_c.Ident) {
+				// Name is not fresh (it would shadow a name that still has to be used)
+				return TypeErrorf("variable name '%s' is already defined. Use unique names in %s", curBranchForm.payload_c.String(), curBranchForm.StringShort())
+			}
+
 			// Set type
 			curBranchForm.payload_c.Type = types.Unfold(expectedBranchType.SessionType, labelledTypesEnv)
 
